@@ -399,7 +399,7 @@ impl PatternFusion for ReduceMeanAxesFusion {
         Ok(ReduceMean {
             axes: Some(axes.to_vec()),
             keep_dims: mean_op.keep_dims,
-            noop_with_empty_axes: false,
+            noop_with_empty_axes: mean_op.noop_with_empty_axes,
         })
     }
 }
@@ -1238,6 +1238,21 @@ impl FusionVisitor for ShapeSliceToConstant {
         let x_id = pat_match.node_id("x").ok_or(FusionError::NoMatch)?;
         let starts_id = pat_match.node_id("starts").ok_or(FusionError::NoMatch)?;
         let ends_id = pat_match.node_id("ends").ok_or(FusionError::NoMatch)?;
+
+        // Shape operators which slice their output are not supported.
+        let shape_op = op_node
+            .input_ids()
+            .first()
+            .copied()
+            .flatten()
+            .and_then(|shape_out| graph.get_source_node(shape_out))
+            .and_then(|(_, shape_node)| shape_node.operator().downcast_ref::<Shape>())
+            .ok_or(FusionError::NoMatch)?;
+        if shape_op.start.is_some() || shape_op.end.is_some() {
+            return Err(FusionError::CheckFailed(
+                "shape has start or end attributes",
+            ));
+        }
 
         let x_shape = graph
             .get_node(x_id)
